@@ -55,7 +55,7 @@ NETS4 = ["10.0.0.0/8", "192.168.0.0/16", "10.1.2.0/24", "10.1.2.3/32", "0.0.0.0/
          "10.4.0.0/14", "128.0.0.0/1", "10.1.2.252/30"]
 
 
-NETS6 = ["2001:db8::/64", "a::/48", "::/32", "2001:db8:1:4::/62", "fe80::/10", "::1/128", "2001:db8::/61"]
+NETS6 = ["2001:db8::/64", "a::/48", "::/32", "2001:db8:1:4::/62", "fe80::/10", "::1/128", "2001:db8::/61", "2001:db8::/48", "0:0:1::/56", "ff00::/8"]
 
 
 @st.composite
